@@ -21,9 +21,17 @@ def main():
         os.makedirs(SCR, exist_ok=True)
         subprocess.check_call(["rsync", "-a", "--exclude", "target", "--exclude", ".git", "/repo/", d + "/"])
         ok_apply = True
-        for (path, old, new) in mu["edits"]:
+        for ed in mu["edits"]:
+            path, old, new = ed[0], ed[1], ed[2]
             p = os.path.join(d, path)
             s = open(p).read()
+            if len(ed) > 3 and ed[3] == "all":
+                if s.count(old) < 1:
+                    print("!! %s: pattern absent in %s" % (mu["name"], path))
+                    ok_apply = False
+                    break
+                open(p, "w").write(s.replace(old, new))
+                continue
             if s.count(old) != 1:
                 print("!! %s: pattern occurs %d times in %s" % (mu["name"], s.count(old), path))
                 ok_apply = False
